@@ -181,3 +181,7 @@ CLAIMED["C01"]["text"] = CLAIMED["C01"]["text"].replace("Also proved: Table.entr
     "species mapping of a subtree is at least the table value at the root's species - i.e. no valid reconciliation is cheaper than what the table says. Also proved: Table.entry and the cost evaluator")
 CLAIMED["C01"]["text"] = CLAIMED["C01"]["text"].replace("BOUNDED only (labelled): table fill order, decoding, re-ranking,", "BOUNDED only (labelled): decoding (the table value is attained by a returned reconciliation), re-ranking,")
 CLAIMED["C01"]["note"] = CLAIMED["C01"]["note"].replace("The lower-bound theorem from a Bellman-closed table to the minimum over all reconciliations is not proved.", "Lemma recursion is structural (on the two children), its termination is not checked; Table.__init__ is an assumed contract (a new table has no cell).")
+
+CLAIMED["C02"]["text"] = CLAIMED["C02"]["text"].replace("PROVED from the real AST: the callees the recurrence rests on",
+    "PROVED from the real AST: _make_prec_graph - the vertices of the precedence graph are exactly the families occurring in some leaf and there is an edge a -> b exactly when a and b are consecutive in some leaf synteny "
+    "(nested loops over the mapping's values and over zip(s[0:-1], s[1:]), invariants over an arbitrary enumeration of the leaves); and the callees the recurrence rests on")
